@@ -718,6 +718,43 @@ impl Property for C02 {
                 ambient: 0,
             });
         }
+        // remaining lengths that are exact multiples of 128 (length bytes 80 01, 80 02, 80 80 01,
+        // ..), the first reads ending inside the length field
+        for target in [128usize, 256, 384, 16_384, 16_512, 32_768] {
+            for chunk in [0xfff1u16, 0xfff2, 0xfff3, 0xfff4] {
+                // PUBLISH: the check adds the subscription identifier, so a small range of sizes
+                // makes sure one of them hits the target exactly
+                for n in target - 30..=target - 8 {
+                    acks.push(Case {
+                        input: In::Publish(rc::Publish { qos: 0, topic: "exact/len".into(), payload: vec![0x42; n], ..Default::default() }),
+                        form: rc::Form::canonical(),
+                        chunk,
+                        ambient: 0,
+                    });
+                    acks.push(Case {
+                        input: In::Publish(rc::Publish { qos: 1, pid: Some(9), topic: "exact".into(), content_type: Some("c".repeat(n)), payload: vec![1], ..Default::default() }),
+                        form: rc::Form::canonical(),
+                        chunk,
+                        ambient: 0,
+                    });
+                }
+                // CONNACK: sized exactly
+                let mk = |n: usize| rc::Connack { reason: 0, reason_string: Some("r".repeat(n)), ..Default::default() };
+                let rl = |n: usize| {
+                    let b = rc::encode(&rc::Packet::Connack(mk(n)), &rc::Form::canonical());
+                    b.len() - 1 - if b.len() - 2 < 128 { 1 } else if b.len() - 3 < 16_384 { 2 } else { 3 }
+                };
+                let mut n = 0usize;
+                for _ in 0..4 {
+                    if rl(n) != target {
+                        n = (n + target).saturating_sub(rl(n));
+                    }
+                }
+                if rl(n) == target {
+                    acks.push(Case { input: In::Connack { pkt: mk(n), via_auth: false }, form: rc::Form::canonical(), chunk, ambient: 0 });
+                }
+            }
+        }
         for short in [false, true] {
             for deco in 0u8..4 {
                 let rs = (deco & 1 != 0).then(|| "why".to_string());
